@@ -26,6 +26,7 @@ struct Handle {
   int lin_link = 0; int64_t lin_off = 0;  // streaming model: next expected output sample
   int64_t model_pos = 0;      // seekable model: expected ov_pcm_tell, -1 unknown
   bool pos_known = true;
+  int64_t since_hole = -1;    // hole mode: samples delivered since OV_HOLE was reported (-1: not yet)
   bool io_dirty = false;      // an I/O fault fired since the last successful seek
   bool saw_fault = false;
   int expect_close = 0;
@@ -41,6 +42,7 @@ struct OpRes {
 
 struct VfRun {
   const Plan &plan; StreamRef sr; std::string prop, mode; Hasher h; Outcome out;
+  int hole_checked = 0; bool extra_handle = false;   // extra_handle: B was opened on demand for an ov_crosslap outside twin mode
   Handle A, B;   // B: mirror twin (C19 lapping, bs64 refusal) or crosslap partner
   bool mirror = false; bool intact = true; bool iofault = false;
   bool compared_after_seek = false; int n_seek_ok = 0; bool any_fault_fired = false;
@@ -79,7 +81,8 @@ struct VfRun {
     H.sf = SimFile(); H.sf.bytes = &sr.bytes; H.sf.seekable = f.i("seekable", 1) != 0; H.sf.rdpol = (int)f.i("rdpol", 0); H.sf.rdk = (int)f.i("rdk", 64); H.sf.rdrng.reseed(f.u("rdseed", 1) + id); H.sf.id = id;
     H.seekable = H.sf.seekable;
   }
-  static ssize_t ck_read(void *c, char *b, size_t n) { return (ssize_t)((SimFile *)c)->do_read(b, 1, n); }
+  // a cookie read function reports an error as -1 (0 would be end-of-file to stdio, which then also forgets its file offset)
+  static ssize_t ck_read(void *c, char *b, size_t n) { SimFile *s = (SimFile *)c; uint64_t i0 = s->n_injected; errno = 0; size_t got = s->do_read(b, 1, n); if (got == 0 && s->n_injected > i0 && errno == EIO) return -1; return (ssize_t)got; }
   static int ck_seek(void *c, off64_t *o, int w) { SimFile *s = (SimFile *)c; if (s->do_seek(*o, w)) return -1; *o = s->pos; return 0; }
   static int ck_close(void *c) { return ((SimFile *)c)->do_close(); }
 
@@ -247,6 +250,34 @@ bool VfRun::read_explained_at(Handle &H, const OpRes &r, bool is_int, const Rec 
 // compare one read against the model. Seekable handles: reference at the position ov_pcm_tell reported before the call.
 void VfRun::oracle_read(Handle &H, const OpRes &r, bool is_int, const Rec &op) {
   const char *site = is_int ? "ov_read" : "ov_read_float";
+  if (sr.hole && !is_int && !H.io_dirty && !H.hr_touched) {
+    // C11, vorbisfile level: one page is missing, rejected or repeated. The call that meets the gap reports OV_HOLE; audio and positions around it
+    // are the decoder's best effort; but everything delivered before the page in front of the gap, and everything from three pages after
+    // it on, is bit-identical to the undisturbed stream *at the position reported for it*.
+    std::initializer_list<const char *> P = {"C11"};
+    { static const bool trace = getenv("VERIF_TRACE") != nullptr; if (trace) fprintf(stderr, "TRACE hole-read t0=%lld ret=%ld t1=%lld window=[%lld,%lld) total=%lld\n", (long long)r.t0, r.ret, (long long)r.t1, (long long)sr.hole_lo, (long long)sr.hole_hi, (long long)sr.total); }
+    if (r.ret == OV_HOLE) { g_stats.inc("probe.hole_reported"); H.since_hole = 0; return; }
+    check(r.ret >= 0 || documented_code(r.ret), {"C11", "C03"}, site, "undocumented-return", fmt("ret=%ld", r.ret));
+    if (r.ret < 0) return;
+    int64_t T0 = r.t0, n = r.ret;
+    // "after": the gap has been reported and more than the window's worth of samples has been delivered since (a repeated page replays its
+    // audio under positions that run ahead until its own last packet re-anchors them, so the reported position alone does not say where we are)
+    bool before = H.since_hole < 0 && T0 >= 0 && T0 + n <= sr.hole_lo, after = H.since_hole >= sr.hole_w;
+    if (H.since_hole >= 0 && !after) H.since_hole += std::max<int64_t>(n, 0);
+    if (!before && !after) { g_stats.inc("probe.hole_reads_in_window"); return; }
+    if (r.ret == 0) { check(T0 >= sr.total, P, site, "end-of-stream-before-the-end", fmt("tell=%lld total=%lld", (long long)T0, (long long)sr.total)); return; }
+    check(T0 < sr.total, P, site, "data-past-the-end", fmt("tell=%lld total=%lld ret=%ld", (long long)T0, (long long)sr.total, r.ret)); if (T0 >= sr.total) return;
+    int l = sr.link_of(T0); int64_t o = T0 - sr.start[l]; auto &ref = refpcm(l, 0);
+    check(r.nch == sr.ps.links[(size_t)l]->r.ch && o + n <= reflen(l, 0), P, site, "shape-differs-after-gap", fmt("ch=%d want %d, off=%lld n=%lld len=%lld", r.nch, sr.ps.links[(size_t)l]->r.ch, (long long)o, (long long)n, (long long)reflen(l, 0)), {{"side", before ? "before" : "after"}});
+    if (r.nch != sr.ps.links[(size_t)l]->r.ch || o + n > reflen(l, 0)) return;
+    for (int c = 0; c < r.nch; c++) if (memcmp(r.pcm[(size_t)c].data(), ref[(size_t)c].data() + o, (size_t)n * sizeof(float))) {
+      int64_t i = 0; while (i < n && !memcmp(&r.pcm[(size_t)c][(size_t)i], &ref[(size_t)c][(size_t)(o + i)], 4)) i++;
+      check(false, P, site, "samples-differ-away-from-the-gap", fmt("position %lld (+%lld) ch %d: %g, undisturbed %g; gap window [%lld,%lld)", (long long)T0, (long long)i, c, r.pcm[(size_t)c][(size_t)i], ref[(size_t)c][(size_t)(o + i)], (long long)sr.hole_lo, (long long)sr.hole_hi), {{"side", before ? "before" : "after"}});
+    }
+    check(r.t1 == T0 + n, P, site, "position-advance-differs", fmt("%lld -> %lld after %lld samples", (long long)T0, (long long)r.t1, (long long)n), {{"side", before ? "before" : "after"}});
+    hole_checked++; g_stats.inc(before ? "probe.hole_reads_checked_before" : "probe.hole_reads_checked_after");
+    return;
+  }
   bool faultless = !H.io_dirty && !inexact() && !H.lap_dirty;
   if (!faultless) {   // relaxed: may fail or end early, never out-of-contract values
     check(r.ret >= 0 || documented_code(r.ret), {"C03", "C12"}, site, "undocumented-return", fmt("ret=%ld", r.ret));
